@@ -29,6 +29,7 @@ META = {
         'scale oracle: own walk of unit.definition',
     ],
 }
+META['bounds'].append('a table / function converter registered on Length and removed again: 5 unit pairs x 3 converter kinds')
 
 
 def setup(mode):
